@@ -2,12 +2,12 @@ package sym
 
 import (
 	"fmt"
-	"sync"
 	"go/types"
 	"os"
 	"path/filepath"
 	"sort"
 	"strings"
+	"sync"
 
 	"golang.org/x/tools/go/packages"
 	"golang.org/x/tools/go/ssa"
@@ -20,6 +20,7 @@ type Program struct {
 	Pkg      *ssa.Package // the package under test (larking)
 	PkgPath  string
 	Overlay  map[string]string // virtual path -> real path
+	Dropped  map[string]string // harness files that do not compile against this tree -> first error
 	RepoDir  string
 	byName   map[string]*ssa.Package
 	implMemo map[[2]types.Type]bool
@@ -47,33 +48,63 @@ func Load(repoDir, pkgDir, pkgPath, harnessDir string) (*Program, error) {
 		overlay[virt] = src
 		ovPaths[virt] = filepath.Join(harnessDir, e.Name())
 	}
-	cfg := &packages.Config{
-		Mode:    packages.LoadAllSyntax,
-		Dir:     repoDir,
-		Overlay: overlay,
-		Env: append(os.Environ(), "GOFLAGS=-mod=mod", "GOPROXY=off", "GOSUMDB=off", "GOTOOLCHAIN=local",
-			"CGO_ENABLED=0"),
-	}
-	pkgs, err := packages.Load(cfg, pkgPath)
-	if err != nil {
-		return nil, err
-	}
-	var errs []string
-	packages.Visit(pkgs, nil, func(p *packages.Package) {
-		for _, e := range p.Errors {
-			errs = append(errs, e.Error())
+	// A harness file (h_*.go) that no longer type-checks against this tree - a larking-internal
+	// function it drives changed its signature, a field it reads was renamed - is dropped and the load
+	// repeated, so that the remaining harnesses still run; the harnesses it defined are reported as
+	// unavailable (inconclusive) by the caller. Errors anywhere else are fatal.
+	dropped := map[string]string{}
+	var pkgs []*packages.Package
+	for attempt := 0; ; attempt++ {
+		cfg := &packages.Config{
+			Mode:    packages.LoadAllSyntax,
+			Dir:     repoDir,
+			Overlay: overlay,
+			Env: append(os.Environ(), "GOFLAGS=-mod=mod", "GOPROXY=off", "GOSUMDB=off", "GOTOOLCHAIN=local",
+				"CGO_ENABLED=0"),
 		}
-	})
-	if len(errs) > 0 {
-		sort.Strings(errs)
-		if len(errs) > 20 {
-			errs = errs[:20]
+		var err error
+		pkgs, err = packages.Load(cfg, pkgPath)
+		if err != nil {
+			return nil, err
 		}
-		return nil, fmt.Errorf("load errors:\n%s", strings.Join(errs, "\n"))
+		var errs []string
+		bad := map[string]string{}
+		fatal := false
+		packages.Visit(pkgs, nil, func(p *packages.Package) {
+			for _, e := range p.Errors {
+				errs = append(errs, e.Error())
+				file := e.Pos
+				if i := strings.Index(file, ":"); i >= 0 {
+					file = file[:i]
+				}
+				if _, isOv := overlay[file]; isOv && strings.HasPrefix(filepath.Base(file), "zz_verif_h_") {
+					if _, seen := bad[file]; !seen {
+						bad[file] = e.Error()
+					}
+				} else {
+					fatal = true
+				}
+			}
+		})
+		if len(errs) == 0 {
+			break
+		}
+		if fatal || len(bad) == 0 || attempt > 8 {
+			sort.Strings(errs)
+			if len(errs) > 20 {
+				errs = errs[:20]
+			}
+			return nil, fmt.Errorf("load errors:\n%s", strings.Join(errs, "\n"))
+		}
+		for f, msg := range bad {
+			dropped[ovPaths[f]] = msg
+			delete(overlay, f)
+			delete(ovPaths, f)
+		}
 	}
 	prog, spkgs := ssautil.AllPackages(pkgs, ssa.InstantiateGenerics|ssa.SanityCheckFunctions&0)
 	prog.Build()
-	p := &Program{SSA: prog, PkgPath: pkgPath, Overlay: ovPaths, RepoDir: repoDir,
+	p := &Program{SSA: prog, PkgPath: pkgPath, Overlay: ovPaths, RepoDir: repoDir, Dropped: dropped,
 		byName: map[string]*ssa.Package{}, implMemo: map[[2]types.Type]bool{}}
 	for _, sp := range prog.AllPackages() {
 		p.byName[sp.Pkg.Path()] = sp
